@@ -388,13 +388,18 @@ public:
     }
     if (const CallExpr *C = dyn_cast<CallExpr>(E)) {
       json::Array args;
-      for (const Expr *A : C->arguments()) args.push_back(JE(A));
+      std::string pflags; // per argument: '1' if it is a pointer (can be stored through), else '0'
+      for (const Expr *A : C->arguments()) {
+        args.push_back(JE(A));
+        QualType AT = A->getType();
+        pflags += (AT->isPointerType() || AT->isArrayType() || AT->isFunctionPointerType()) ? '1' : '0';
+      }
       if (const FunctionDecl *FD = C->getDirectCallee()) {
         noteCallee(FD);
-        return json::Array{"c", FD->getNameAsString(), std::move(args)};
+        return json::Array{"c", FD->getNameAsString(), std::move(args), nullptr, nullptr, pflags};
       }
       return json::Array{"c", nullptr, std::move(args), JE(C->getCallee()),
-                         typeStr(C->getCallee()->getType().getCanonicalType())};
+                         typeStr(C->getCallee()->getType().getCanonicalType()), pflags};
     }
     if (const ConditionalOperator *CO = dyn_cast<ConditionalOperator>(E)) {
       return json::Array{"?", JE(CO->getCond()), JE(CO->getTrueExpr()), JE(CO->getFalseExpr())};
